@@ -4,7 +4,7 @@ from .. import varcommon
 
 def run(ctx):
     ctx.rule = varcommon.RULE
-    varcommon.run(ctx, ["C04-"])
+    varcommon.run(ctx, ["C04-"], rand_n=40 if ctx.quick else 800)
     ctx.assumptions = ["annotation consistent with the genome: every CDS ends in a stop codon of the reference, GenBank /translation and GFF phases are "
                        "computed from the same layout (GFF3 phase semantics)",
                        "reference rows use A/C/G/T; query symbols are upper-case IUPAC or '-'",
